@@ -74,7 +74,7 @@ func init() {
 			"pocket-core HTTP RPC":  "not run: requests call PocketCoreApp.HandleRelay, the function the RPC handler calls",
 		}}
 	Props["C40"] = PropSpec{Engine: "kbsim", Level: "exploration", QuickS: 40, ThoroughS: 900, MinBudget: 120,
-		Rule: "one evaluation = one generated keybase history (12-40 operations: create, import of raw keys and of exported armors, export as object and as armor, sign, passphrase update, delete with passphrase, unsafe delete, get, list) on the real keybase over the simulated disk, with the right passphrase or a near-miss (case, trailing blank, NUL, common 72-byte prefix, unicode, empty), reopen of the keybase over the surviving disk, single-bit flips of stored records and of exported armors; oracle: address -> (key, passphrase) map - a private key is only ever handed out (export, sign, update, delete, armor decrypt/import) for its passphrase and is byte-identical to the stored key, listed = stored, deleted = gone; after a flip only the damaged record is relaxed (it may fail, it may never yield another key or accept another passphrase); distinct case = (operation, record state, right/wrong passphrase, outcome)",
+		Rule: "one evaluation = one generated keybase history (12-40 operations: create, import of raw keys and of exported armors, export as object and as armor, sign, passphrase update, delete with passphrase, unsafe delete, get, list) on the real keybase over the simulated disk, with the right passphrase or a near-miss (case, trailing blank, NUL, common 72-byte prefix, unicode, empty), reopen of the keybase over the surviving disk, single-bit flips of stored records and of exported armors; oracle: address -> (key, passphrase) map - a private key is only ever handed out (export, sign, update, delete, armor decrypt/import) for its passphrase and is byte-identical to the stored key, listed = stored, deleted = gone; after a flip only the damaged record is relaxed (it may fail, it may never yield another key or accept another passphrase); distinct case = (operation, record state, right/wrong passphrase, outcome); passphrases include pairs that are one key to HMAC-SHA256 (trailing zero bytes, a passphrase over 64 bytes and its digest), decided by a read-only probe; GetCoinbase/SetCoinbase are part of the operation mix: the coinbase pair is a stored, current record",
 		Assumptions: []string{
 			"crypto/rand is replaced by a seeded stream through testing/cryptotest.SetGlobalRandom (Go 1.26), so key generation and salts are a function of the seed",
 			"the pure half of the statement (the space of armor mutations as such, key-derivation strength) is not claimed; armor and record flips are single-bit faults at schedule-chosen positions",
@@ -111,31 +111,31 @@ func chainProp(quick, thorough float64, rule string) PropSpec {
 func init() {
 	base := "one evaluation = one simulated chain history (40-140 generated steps: signed transactions with adversarial signature/fee/encoding treatments, blocks with time gaps, absent votes, double-sign evidence, mempool reordering, off-chain calls, restarts) on a swarm-drawn configuration; every ABCI phase boundary is dumped and judged on the diff; "
 	Props["C06"] = chainProp(45, 900, base+"distinct case = committed population shape; non-trivial = block executed with transient-store and commit-version checks; every third seed drives the multistore alone (storesim): two nodes receive identical persistent writes, one of them also transient writes made directly, through a cache-wrapped multistore and through a nested one; every commit must advance the version by one, give both nodes the same hash and leave the transient store empty")
-	Props["C11"] = chainProp(45, 900, base+"off-chain calls (queries at any height, CheckTx, app/simulate of every tx kind) are placed at every ABCI boundary; distinct case = (call kind/path, placement)")
-	Props["C12"] = chainProp(60, 900, base+"the recorded chain log is re-executed by replicas: plain (fresh globals), GOMAXPROCS 16, wall clock decades behind and decades ahead of chain time (testing/synctest bubble); per-block digests (tx code/codespace/data, validator updates, app hash) must be equal; distinct case = tx outcomes and replica sets")
+	Props["C11"] = chainProp(45, 900, base+"off-chain calls (queries at any height, CheckTx, app/simulate of every tx kind) are placed at every ABCI boundary; distinct case = (call kind/path, placement); interference includes CheckTx of type recheck and the simulation of an unsigned proof transaction with a made-up merkle path for a pending claim of a local servicer, and the relay evidence the node's servicers hold must be the same before and after every off-chain call")
+	Props["C12"] = chainProp(60, 900, base+"the recorded chain log is re-executed by replicas: plain (fresh globals), GOMAXPROCS 16, wall clock decades behind and decades ahead of chain time (testing/synctest bubble); per-block digests (tx code/codespace/data, validator updates, app hash) must be equal; distinct case = tx outcomes and replica sets; reward delegators include keys that have no account yet; a further replica is the process that ran InitChain and never restarted (protocol switches set by InitChain alone), compared with the reference that derives them as a restarted process does")
 	Props["C13"] = chainProp(60, 900, base+"the primary serves queries at any height, CheckTx and simulations at every ABCI boundary, restarts with cold caches and runs with small node-local caches; a plain replica re-executes the same blocks with none of that; per-block digests must be equal; distinct case = (call kind, placement)")
 	Props["C14"] = chainProp(45, 900, base+"distinct case = (tx kind, signature treatment) of delivered unauthenticated transactions and (tx kind, outcome) of authenticated ones")
-	Props["C15"] = chainProp(45, 900, base+"fees drawn around the required fee and balances around the fee; distinct case = (tx kind, encoding, outcome)")
+	Props["C15"] = chainProp(45, 900, base+"fees drawn around the required fee and balances around the fee; distinct case = (tx kind, encoding, outcome); senders include two-of-two multi-signature accounts (funded at genesis) with every fee treatment")
 	Props["C16"] = chainProp(45, 900, base+"resubmission of identical bytes and of re-encodings that the node's decoder maps to the same StdTx, in the same or later blocks; distinct case = (tx kind, encoding, outcome)")
 	Props["C17"] = chainProp(45, 900, base+"distinct case = committed population shape (nodes, apps, jailed, unstaking)")
-	Props["C18"] = chainProp(45, 900, base+"send amounts {1, balance-fee, balance, balance+1, random}, self-sends, fresh recipients; distinct case = (tx kind, encoding, outcome)")
-	Props["C19"] = chainProp(45, 900, base+"distinct case = committed population shape (nodes, apps, jailed, unstaking)")
-	Props["C20"] = chainProp(45, 900, base+"distinct case = committed population shape (nodes, apps, jailed, unstaking)")
+	Props["C18"] = chainProp(45, 900, base+"send amounts {1, balance-fee, balance, balance+1, random}, self-sends, fresh recipients; distinct case = (tx kind, encoding, outcome); recipients include module account addresses")
+	Props["C19"] = chainProp(45, 900, base+"distinct case = committed population shape (nodes, apps, jailed, unstaking); plain sends to the pool's own address are generated, and the simulator keeps count of what they added")
+	Props["C20"] = chainProp(45, 900, base+"distinct case = committed population shape (nodes, apps, jailed, unstaking); plain sends to the pool's own address are generated, and the simulator keeps count of what they added")
 	Props["C21"] = chainProp(45, 900, base+"index entries are parsed from raw keys (0x23|power|^addr, 0x22|chain|addr, 0x41|time) and compared both ways with the records; distinct case = committed population shape")
 	Props["C22"] = chainProp(45, 900, base+"the driver applies every reported update cumulatively; distinct case = (updates in block, set size, eligible nodes)")
 	Props["C23"] = chainProp(45, 900, base+"edit-stake matrix: amount {same,+1,+1M,-1}, output address kept/changed, delegators, signed by operator or output address, staggered OEDIT/RewardDelegators activation; distinct case = (stake bumped, output changed, delegators changed)")
-	Props["C24"] = chainProp(45, 900, base+"begin-unstake requests, forced unstakes, time gaps from 1 s to 30 days around completion times; EndBlock diffs must contain exactly the due payouts; distinct case = payouts per block and delivered tx outcomes")
+	Props["C24"] = chainProp(45, 900, base+"begin-unstake requests, forced unstakes, time gaps from 1 s to 30 days around completion times; EndBlock diffs must contain exactly the due payouts; distinct case = payouts per block and delivered tx outcomes; the simulator keeps its own record of the height since which each node record and each waiting-to-unstake entry exists: a node may be released to unstaking only by an entry that is not older than its record")
 	Props["C25"] = chainProp(45, 900, base+"absent votes over the signing window, double-sign evidence, unjail attempts by operator/output/strangers before and after the jail end; distinct case = committed population shape")
 	Props["C26"] = chainProp(45, 900, base+"BeginBlock diffs: collected fees leave the fee collector to the DAO and the proposer side with sum zero and the DAO share matching the exact rational split; (relay-reward split is checked where proofs are accepted); distinct case = (dao%, proposer%, recipients)")
 	Props["C28"] = chainProp(45, 900, base+"application stakes around minimum stake, chain limit, funds and the max-applications boundary; transfers to fresh keys; distinct case = (new|edit) and transfer outcomes")
-	Props["C37"] = chainProp(45, 900, base+"genesis leaves a random subset of features unscheduled; feature-upgrade transactions schedule them (and restate scheduled ones) while the chain runs, with clean restarts in between; the stored list, the node's activation schedule and the activation predicates at h-1,h,h+1 are compared with the model schedule after every upgrade and every restart; distinct case = (features named, accepted)")
-	Props["C42"] = chainProp(45, 900, base+"every block is indexed through AddBatch exactly as the fork does; a searcher then sweeps hash lookups, height, sender, sender+height and recipient searches in both directions with page sizes {1,2,3,30} through PocketCoreApp.Query*Txs -> stubbed TxSearch -> real indexer, at the end of the run and after every restart; distinct case = (indexed txs, signers, recipients)")
-	Props["C43"] = chainProp(60, 900, base+"at the end of the run the state is exported (ExportAppState at the last height) and imported by a child process (InitChain with the export); accounts and balances, supply, nodes, applications, all parameters and pending claims are compared as typed values; distinct case = shape of the exported state (unstaking nodes/apps, jailed, claims)")
+	Props["C37"] = chainProp(45, 900, base+"genesis leaves a random subset of features unscheduled; feature-upgrade transactions schedule them (and restate scheduled ones) while the chain runs, with clean restarts in between; the stored list, the node's activation schedule and the activation predicates at h-1,h,h+1 are compared with the model schedule after every upgrade and every restart; distinct case = (features named, accepted); the upgrade record is also written through the parameter-change message by the owner of gov/upgrade")
+	Props["C42"] = chainProp(45, 900, base+"every block is indexed through AddBatch exactly as the fork does; a searcher then sweeps hash lookups, height, sender, sender+height and recipient searches in both directions with page sizes {1,2,3,30} through PocketCoreApp.Query*Txs -> stubbed TxSearch -> real indexer, at the end of the run and after every restart; distinct case = (indexed txs, signers, recipients); search by hash returns exactly the indexed transaction and nothing for a hash that is not indexed")
+	Props["C43"] = chainProp(60, 900, base+"at the end of the run the state is exported (ExportAppState at the last height) and imported by a child process (InitChain with the export); accounts and balances, supply, nodes, applications, all parameters and pending claims are compared as typed values; distinct case = shape of the exported state (unstaking nodes/apps, jailed, claims); the set of account records (zero-balance ones included) is compared, and runs re-issue claims under the other evidence type so that an export holds claims of both types for one session")
 	relay := "a gateway actor dispatches and sends 1-140 signed relays per step for staked applications to the servicers this node runs (hosted chain = in-process RoundTripper); the node's own SendClaimTx/SendProofTx are called at schedule-chosen points and their transactions join the next block; "
 	Props["C29"] = chainProp(60, 900, base+relay+"before every claim each stored evidence is swept: every leaf index must yield a proof that verifies against the root built from the same set with ceil(log2(n)) levels, and the node's own proof transaction must never be rejected with the merkle/level-count codes; set sizes are whatever the traffic produced (sampling); distinct case = evidence sizes swept")
 	Props["C30"] = chainProp(60, 900, base+relay+"a cheating servicer alters one field of its pending proof (leaf, index, sibling hash, sibling range, target range, level count) and re-signs it, or counts one relay twice before claiming; distinct case = (mutation) of delivered forged proofs")
-	Props["C31"] = chainProp(60, 900, base+relay+"claims arrive at every height of the acceptance window because the auto-claim pass is a scheduled step; for every accepted claim the block whose hash selects the leaf must have been proposed strictly after the claim's block; every rewarded proof's leaf index is recomputed from the driver's own block log (SHA3-256 of {hash of the block before the proof height, session header hash}, first 8 bytes mod claimed count) and must match and lie inside the claimed count; distinct case = claim height relative to the proof height")
-	Props["C32"] = chainProp(60, 900, base+relay+"claim life-cycle table per (servicer, session header): admission conditions in the session-start and current state, reward only for a live claim with a verifying proof and at most once, overwritten and expired claims; distinct case = claim/proof outcomes")
+	Props["C31"] = chainProp(60, 900, base+relay+"claims arrive at every height of the acceptance window because the auto-claim pass is a scheduled step; for every accepted claim the block whose hash selects the leaf must have been proposed strictly after the claim's block; every rewarded proof's leaf index is recomputed from the driver's own block log (SHA3-256 of {hash of the block before the proof height, session header hash}, first 8 bytes mod claimed count) and must match and lie inside the claimed count; distinct case = claim height relative to the proof height; local servicers also send proofs before the proof height for the leaf the current tip's hash selects: no proof may be accepted before the selecting block exists")
+	Props["C32"] = chainProp(60, 900, base+relay+"claim life-cycle table per (servicer, session header): admission conditions in the session-start and current state, reward only for a live claim with a verifying proof and at most once, overwritten and expired claims; distinct case = claim/proof outcomes; local servicers re-issue their claims and proofs under the other evidence type and re-issue claims for the session block height + 1: the relays of a session are paid through one claim, and a claim names a height at which a session starts")
 	Props["C33"] = chainProp(60, 900, base+relay+"every dispatch response is checked: count, distinctness, staked-for-chain at session start, not jailed at both reference points, identical answer for identical inputs (also after restarts), insufficient-nodes only if fewer eligible nodes exist; distinct case = (session nodes, population)")
 	Props["C35"] = chainProp(60, 900, base+relay+"one relay per step may have exactly one aspect altered (token signature, client signature, client key, request hash, servicer key, chain, session height, meta block height, unstaked application); it must be refused and leave the evidence unchanged, the unaltered relays around it must be answered, signed and recorded; distinct case = mutation kinds and refusal reasons")
 	Props["C36"] = chainProp(45, 900, base+"parameter changes, upgrades and DAO transfers/burns by the owner and by other keys, amounts around the DAO balance; distinct case = (tx kind, encoding, outcome)")
